@@ -51,6 +51,9 @@ def run(rep, tier, replay):
         fam.append(("alpha_%d" % a, bytes(rng.randrange(a) * 31 % 256 for _ in range(400))))
     fam.append(("alpha_256", bytes(range(256)) * 8))
     fam.append(("full_900k_symbols", bzfmt.unrle(bzfmt.ibwt(bytes(rng.randrange(256) for _ in range(30000)), 0)) * 35))
+    # completely full blocks of incompressible data at level 9 (18000-18001 real groups: the selector bound, byte alignment)
+    for k in range(3 if tier == "quick" else 8):
+        fam.append(("full_900k_random_%d" % k, rng.randbytes(1000000)))
     cases = []
     for name, data in fam:
         combos = [(rng.randrange(1, 10), rng.random() < 0.5)] if tier == "quick" else [(l, u) for l in range(1, 10) for u in (False, True)]
